@@ -58,9 +58,16 @@ func runC23(t *testing.T, tape *simrt.Tape, env dst.Env) *simrt.Outcome {
 		ids := map[int64]int64{}       // tag -> msg id
 		tags := map[int64]int64{}      // msg id -> tag
 		sentFor := map[int64][]int64{} // request msg id -> result values addressed to it
+		var pingIDs []int64            // ids of the pings the client has pending
 		fx.srv.onMsg = func(m *clientMsg) {
 			if tag, ok := reqTag(m.body); ok {
 				ids[tag], tags[m.msgID] = m.msgID, tag
+			}
+			if m.typeID == mt.PingRequestTypeID {
+				var p mt.PingRequest
+				if p.Decode(&bin.Buffer{Buf: m.body}) == nil {
+					pingIDs = append(pingIDs, p.PingID)
+				}
 			}
 		}
 		ctx, cancel := context.WithCancel(context.Background())
@@ -83,7 +90,19 @@ func runC23(t *testing.T, tape *simrt.Tape, env dst.Env) *simrt.Outcome {
 					simrt.Send(0, fin, res{tag, out, err})
 				})
 			}
-			simrt.WaitUntil(10*time.Millisecond, time.Second, func() bool { return len(ids) == calls && fx.srv.session != 0 || calls == 0 })
+			// pending pings: pongs (matching, duplicated, inside containers) then
+			// have a waiter to hit
+			pings := tape.Choose(simrt.Wl, 3)
+			for i := 0; i < pings; i++ {
+				simrt.Go("ping", func() {
+					cctx, cc := context.WithTimeout(ctx, 8*time.Second)
+					defer cc()
+					_ = fx.conn.Ping(cctx)
+				})
+			}
+			simrt.WaitUntil(10*time.Millisecond, time.Second, func() bool {
+				return (len(ids) == calls && fx.srv.session != 0 || calls == 0) && len(pingIDs) >= pings
+			})
 			if calls == 0 {
 				// the server needs the session id: make the client speak
 				cctx, cc := context.WithTimeout(ctx, time.Second)
@@ -144,6 +163,9 @@ func runC23(t *testing.T, tape *simrt.Tape, env dst.Env) *simrt.Outcome {
 					}
 					return enc(&a)
 				case 7:
+					if len(pingIDs) > 0 && tape.Coin(simrt.Wl, 2, 3) {
+						return enc(&mt.Pong{MsgID: int64(tape.Uint64(simrt.Wl)), PingID: pingIDs[tape.Choose(simrt.Wl, len(pingIDs))]})
+					}
 					return enc(&mt.Pong{MsgID: int64(tape.Uint64(simrt.Wl)), PingID: int64(tape.Uint64(simrt.Wl))})
 				case 8:
 					switch tape.Choose(simrt.Wl, 4) {
